@@ -139,12 +139,14 @@ RECURSIVE CRunFrom(_, _, _)
 CRunFrom(old, new, c) == IF c.mode = "done" THEN c ELSE CRunFrom(old, new, CStep(old, new, c))
 Cleanup(old, new, ops) == CRunFrom(old, new, CInit(ops)).ops
 
-\* the steps the code's tracer reports: every step except the silent scan steps;
-\* note that the tracer reports the pointer *before* `pointer += 1` for up_exit/down_exit
+\* the steps the code's tracer (cfg(similar_verif) cleanup_step) reports: every step except
+\* the silent scan steps, as <<arm, pointer, ops>>.  The tracer reports the pointer of the
+\* exits of the down loop and of the two passes *before* the outer loop advances / resets it.
 RECURSIVE CLogFrom(_, _, _, _)
 CLogFrom(old, new, c, acc) ==
   IF c.mode = "done" THEN acc
   ELSE LET d == CStep(old, new, c)
-       IN CLogFrom(old, new, d, IF d.arm = "scan" THEN acc ELSE Append(acc, <<d.arm, d.ops>>))
-CLog(old, new, ops) == CLogFrom(old, new, CInit(ops), <<<<"begin", ops>>>>)
+           p == IF d.arm \in {"down_exit", "pass2", "end"} THEN c.ptr ELSE d.ptr
+       IN CLogFrom(old, new, d, IF d.arm = "scan" THEN acc ELSE Append(acc, <<d.arm, p, d.ops>>))
+CLog(old, new, ops) == CLogFrom(old, new, CInit(ops), <<<<"begin", 0, ops>>>>)
 =============================================================================
